@@ -94,7 +94,7 @@ struct Target {
 
 fn target(spec: GraphSpec, s: Arc<dyn Sampler>) -> Target {
     let dim = s.dimension();
-    let image_finite = s.image().count_floats().1 == 0;
+    let image_finite = s.image_settled().count_floats().1 == 0;
     Target { spec, s, dim, image_finite }
 }
 
@@ -252,7 +252,16 @@ pub fn gen_scenario(seed: u64, cfg: &GenCfg) -> Scenario {
     // (16-bit counters / generation numbers / caches that fill up late)
     let long_burst = !big_burst && rng.chance(1, 2500);
     let (spec, s) = if big_burst {
-        let g = workload::big_accepted_graph(&mut rng, if cfg.thorough { 14 } else { 13 });
+        // one in ten of those beyond 16 edges (tables of 2^17 / 2^18 entries: 16-bit
+        // indices, ids and slots wrap here); a build costs 1-2 s
+        let ne = if rng.chance(1, 10) {
+            if cfg.thorough && rng.chance(1, 3) { 18 } else { 17 }
+        } else if cfg.thorough {
+            14
+        } else {
+            13
+        };
+        let g = workload::big_accepted_graph(&mut rng, ne);
         match sampler::build(&g) {
             Built::Ok(s) => (g, Arc::from(s) as Arc<dyn Sampler>),
             _ => pick_graph(&mut rng, max_e, max_l),
